@@ -186,6 +186,8 @@ def run(ctx):
     rep.floor('R-START-INCL', rep.rules['R-START-INCL']['instances'], 5)
     rep.floor('R-START-ANCHOR', rep.rules['R-START-ANCHOR']['obligations'], 5)
     # shared clauses
+    from . import c03
+    c03.rule_cond(ctx, rep)     # digits, dots and parentheses that do not form an interrupting list marker stay prose
     from . import c06, c16
     c06.rule_flank(ctx, rep, prose_rows_only=True)
     c16.rule_gap_verbatim(ctx, rep)
